@@ -219,6 +219,9 @@ type mergeCase struct {
 	Mutation string   `json:"mutation"`
 	Orders   [][]int  `json:"orders"`
 	Tags     []string `json:"tags,omitempty"`
+	// the services' schemas as an introspection of them would give them: Query without the
+	// __schema and __type fields, which then come from the gateway's own schema only
+	Strip bool `json:"strip_introspection_fields,omitempty"`
 }
 
 // universeHook, when set, adjusts the universe the merge cases are drawn from (C14 adds
@@ -276,6 +279,7 @@ func genMergeCase(r *rand.Rand, injectPct int) *mergeCase {
 	if r.Intn(100) < injectPct {
 		mc.Mutation = injectIncompat(r, mc, uni)
 	}
+	mc.Strip = r.Intn(4) == 0
 	for _, s := range mc.Services {
 		closeSvc(s, uni)
 		s.render()
